@@ -199,6 +199,80 @@ def build(P):
             scope_shapes.append("\n".join(["g <- 0", head, "WHILE g < 3 DO", "g <- g + 1", "ENDWHILE", "REPEAT", "g <- g + 10", "UNTIL g > 20", "INPUT g", tail, call, "OUTPUT \"main \", g"]))
         yield ("scope-shapes", [Case(id="C04-scope-%d" % i, prog=(sp + "\n").encode(), stdin=b"77\n", meta=dict(units=["scope/%d" % i])) for i, sp in enumerate(scope_shapes)])
         yield ("call-matrix", [Case(id="C04-call-%d" % i, prog=(s + "\n").encode(), meta=dict(units=["call/%d" % i])) for i, s in enumerate(call_matrix())])
+        # parameter-list matrix: every spelling of the passing mode (none / BYVAL / BYREF per parameter, so every run structure of sticky modes) for lists of 2..4 parameters,
+        # PROCEDURE and FUNCTION, each parameter of its own type (INTEGER, STRING, REAL, a record) or grouped under a shared type; every parameter is modified in the body and
+        # the caller's variables are dumped afterwards; arguments of the wrong type for each position are tried as well (a misaligned type list accepts them)
+        import itertools as _it
+        TY = ["INTEGER", "STRING", "REAL", "Rec"]
+        ARGV = {"INTEGER": ("vi%d", "%d"), "STRING": ("vs%d", '"s%d"'), "REAL": ("vr%d", "%d.5"), "Rec": ("vc%d", None)}
+        MOD = {"INTEGER": "%s <- %s + 100", "STRING": '%s <- %s & "!"', "REAL": "%s <- %s + 0.25", "Rec": "%s.f <- %s.f + 100"}
+        def plist_prog(kind, modes, types, groups):
+            """modes[i] in ('', 'BYVAL', 'BYREF'); groups: list of lists of parameter indices sharing one ': type' (consecutive)"""
+            k = len(modes)
+            L = ["TYPE Rec", "DECLARE f : INTEGER", "DECLARE g : STRING", "ENDTYPE"]
+            args = []
+            for i in range(k):
+                t = types[i]; vn = ARGV[t][0] % i
+                L.append("DECLARE %s : %s" % (vn, t))
+                L.append(("%s.f <- %d" % (vn, i + 1)) if t == "Rec" else ("%s <- %s" % (vn, ARGV[t][1] % (i + 1))))
+                args.append(vn)
+            parts = []
+            for grp in groups:
+                names = []
+                for i in grp:
+                    names.append((modes[i] + " " if modes[i] else "") + "p%d" % i)
+                parts.append(", ".join(names) + " : " + types[grp[0]])
+            head = "%s Sub(%s)" % (kind, ", ".join(parts)) + (" RETURNS INTEGER" if kind == "FUNCTION" else "")
+            L.append(head)
+            for i in range(k):
+                L.append(MOD[types[i]] % ("p%d" % i, "p%d" % i))
+            L.append("OUTPUT \"proc in\"")
+            L += ["RETURN 0", "ENDFUNCTION"] if kind == "FUNCTION" else ["ENDPROCEDURE"]
+            L.append(("dummy <- Sub(%s)" if kind == "FUNCTION" else "CALL Sub(%s)") % ", ".join(args))
+            for i in range(k):
+                L.append(("OUTPUT \"%s=\", %s.f" % (args[i], args[i])) if types[i] == "Rec" else ("OUTPUT \"%s=\", %s" % (args[i], args[i])))
+            return "\n".join(L)
+        plist = []
+        rr = rng_for(seed, "C04plist")
+        for kind in ("PROCEDURE", "FUNCTION"):
+            for k in (2, 3, 4):
+                for modes in _it.product(("", "BYVAL", "BYREF"), repeat=k):
+                    types = [rr.choice(TY) for _ in range(k)]
+                    plist.append(plist_prog(kind, modes, types, [[i] for i in range(k)]))
+            # grouped types: partitions of 3..5 parameters into consecutive groups, a mode keyword possibly inside a group
+            for k in (3, 4, 5):
+                for cuts in _it.product((0, 1), repeat=k - 1):
+                    groups = [[0]]
+                    for i, c in enumerate(cuts):
+                        if c: groups.append([i + 1])
+                        else: groups[-1].append(i + 1)
+                    gt = [rr.choice(TY) for _ in groups]
+                    types = [None] * k
+                    for g_, t in zip(groups, gt):
+                        for i in g_: types[i] = t
+                    for rep in range(2):
+                        modes = [rr.choice(("", "", "BYVAL", "BYREF")) for _ in range(k)]
+                        plist.append(plist_prog(kind, modes, types, groups))
+        # wrong-typed argument at each position of a grouped list (must be refused: a shifted type list would accept it)
+        for kind in ("PROCEDURE", "FUNCTION"):
+            for pos in range(4):
+                base = ["PROCEDURE Show(a, b : INTEGER, ratio : REAL, label : STRING)" if kind == "PROCEDURE" else "FUNCTION Show(a, b : INTEGER, ratio : REAL, label : STRING) RETURNS INTEGER",
+                        "OUTPUT \"proc \", a, \" \", b, \" \", ratio, \" \", label"] + (["RETURN 1", "ENDFUNCTION"] if kind == "FUNCTION" else ["ENDPROCEDURE"])
+                good = ["1", "2", "0.5", '"lbl"']; bad = ['"x"', '"y"', '"z"', "4.5"]
+                a = list(good); a[pos] = bad[pos]
+                call = ", ".join(a)
+                plist.append("\n".join(base + [("d <- Show(%s)" if kind == "FUNCTION" else "CALL Show(%s)") % call, "OUTPUT \"after\""]))
+                plist.append("\n".join(base + [("d <- Show(%s)" if kind == "FUNCTION" else "CALL Show(%s)") % ", ".join(good), "OUTPUT \"after\""]))
+        # local arrays / records shadowing global ones
+        for kind, head, tail, call in [("proc", "PROCEDURE Run()", "ENDPROCEDURE", "CALL Run()"), ("fn", "FUNCTION Run() RETURNS INTEGER", "RETURN 0\nENDFUNCTION", "d <- Run()")]:
+            plist.append("\n".join(["DECLARE g : ARRAY[1:3] OF INTEGER", "g[2] <- 7", head, "DECLARE g : ARRAY[1:2] OF STRING", "g[2] <- \"local\"", "OUTPUT \"proc \", g[2]", tail, call, call, "OUTPUT g[2]"]))
+            plist.append("\n".join(["DECLARE g : ARRAY[1:3] OF INTEGER", "g[2] <- 7", head, "DECLARE g : INTEGER", "g <- 5", "OUTPUT \"proc \", g", tail, call, "OUTPUT g[2]"]))
+            plist.append("\n".join(["g <- 7", head, "DECLARE g : ARRAY[1:2] OF INTEGER", "g[1] <- 5", "OUTPUT \"proc \", g[1]", tail, call, "OUTPUT g"]))
+            plist.append("\n".join(["TYPE Rec", "DECLARE f : INTEGER", "ENDTYPE", "DECLARE g : Rec", "g.f <- 7", head, "DECLARE g : Rec", "g.f <- 5", "OUTPUT \"proc \", g.f", tail, call, "OUTPUT g.f"]))
+        plist = list(dict.fromkeys(plist))
+        pcases = [Case(id="C04-plist-%d" % i_, prog=(p_ + "\n").encode(), meta=dict(units=["plist/%d" % i_])) for i_, p_ in enumerate(plist)]
+        for ch in chunks(pcases, 400):
+            yield ("parameter-lists", ch)
         n = sizes(tier, 1200, 30000)
         cs = []
         for i in range(n):
